@@ -84,7 +84,7 @@ PUNCT = "!\"#$%&'()*+,./:;<=>?@[\\]^_`{|}~"
 WHITE = " \t\n\r\x0b\x0c\x1c\x1d\x1e\x1f\x85\u00a0\u1680\u2003\u2028\u2029\u202f\u3000"
 NONASCII = ("\u00e4\u00f6\u00fc\u00c4\u00d6\u00dc\u00df\u00e9\u00e8\u00ea\u00f1\u00e7\u00f8\u00e5\u00c6\u0141\u017e\u015f\u011f\u0131"
             "\u03a9\u03c0\u03bb\u0414\u0416\u044f\u05e7\u05e9\u0623\u0628\u65e5\u672c\u8a9e\u706f\u5149\u96fb\u6c17\uc870\uba85"
-            "\U0001f600\U0001f3e0\U0001f4a1\u0301\u200d\ufeff\U000103ff\U0010ffff\u0660\u0967\uff21\uff11\u2160\u00b2")
+            "\U0001f600\U0001f3e0\U0001f4a1\u0301\u200d\ufeff\U000103ff\U0010ffff\u0660\u0967\uff21\uff11\u2160\u00b2\ud800\udfff")
 
 BOUNDARY_NAMES = [
     "!!!", "", "-", " ", "---", " - ", "- -", "a", "A-b", "1234", "0", "日本語", "Ünïcödé Lamp", "a\nb", "\t", "\ud800",
@@ -126,12 +126,43 @@ def gen_names(ctx: Ctx) -> List[str]:
         if rng.random() < 0.25:
             s = s + rng.choice(["-", " ", "--", " -", "- ", "!", "é"])
         names.append(s[:200])
+    # every name of length <= 4 (quick) / <= 6 (thorough) over a five-symbol alphabet that has one
+    # member of each class the sanitisers distinguish
+    import itertools
+
+    sym = ["a", "-", " ", "!", "\u00e9"]
+    for ln in range(1, (4 if ctx.quick else 6) + 1):
+        for t in itertools.product(sym, repeat=ln):
+            names.append("".join(t))
+    # truncation boundary: a long valid prefix followed by every 3-symbol tail
+    for k in ((53, 54, 55, 56) if ctx.quick else range(50, 60)):
+        for t in itertools.product(sym, repeat=3):
+            names.append("x" * k + "".join(t) + "z")
     return names
+
+
+_STATES: Dict[str, Any] = {}
+
+
+def _state_for(m, mac: str):
+    st = _STATES.get(mac)
+    if st is None or st.__class__ is not m.state.State:
+        st = _STATES[mac] = m.state.State(address="127.0.0.1", mac=mac, pincode=b"031-45-154", port=51234)
+    return st
+
+
+def _mac_suffix(mac: str) -> str:
+    """Last three octets without separators (independent of the slicing used by the code)."""
+    return "".join(mac.split(":")[3:])
+
+
+def gen_mac(rng) -> str:
+    return ":".join(rng.choice("0123456789ABCDEFabcdef") + rng.choice("0123456789ABCDEFabcdef") for _ in range(6))
 
 
 def impl_names(m, name: str, mac: str = MAC) -> Dict[str, Any]:
     acc = SimpleNamespace(display_name=name, category=1)
-    st = m.state.State(address="127.0.0.1", mac=mac, pincode=b"031-45-154", port=51234)
+    st = _state_for(m, mac)
     try:
         info = m.accessory_driver.AccessoryMDNSServiceInfo(acc, st)
     except Exception as ex:  # noqa: BLE001
@@ -142,8 +173,8 @@ def impl_names(m, name: str, mac: str = MAC) -> Dict[str, Any]:
     return {"inst": inst, "host": host, "vn": md}
 
 
-def oracle_names(ctx: Ctx, name: str, got: Dict[str, Any]):
-    rep = {"kind": "name", "name": _cps(name), "mac": MAC}
+def oracle_names(ctx: Ctx, name: str, got: Dict[str, Any], mac: str = MAC):
+    rep = {"kind": "name", "name": _cps(name), "mac": mac}
     shown = name if len(name) <= 24 else name[:24] + f"...({len(name)} chars)"
     if "exc" in got:
         if got["exc"] == "BadTypeInNameException" and "Too long" in got.get("msg", ""):
@@ -162,7 +193,7 @@ def oracle_names(ctx: Ctx, name: str, got: Dict[str, Any]):
     if p:
         ctx.fail(f"C18:host-label-{p}", f"display name {shown!r} gives host label {got['host']!r}", rep)
     # md is the sanitised name: the instance label is "<md> <mac suffix>"
-    if got["vn"] is None or got["inst"] != f"{got['vn']} 7A8FA9":
+    if got["vn"] is None or got["inst"] != f"{got['vn']} {_mac_suffix(mac)}":
         ctx.fail("C18:md-not-sanitised-name", f"display name {shown!r}: md={got['vn']!r} but label {got['inst']!r}", rep)
 
 
@@ -977,6 +1008,38 @@ def oracle_sys(ctx: Ctx, script, got):
                      f"{len(got['final'])} controllers are paired", rep)
 
 
+# ----------------------------------------------------------------------------- constants fixed by the model
+
+
+def source_constants() -> Dict[str, Any]:
+    """Module-level constants the model hard-codes, read from the source text (ast, no import)."""
+    import ast
+
+    out: Dict[str, Any] = {}
+    wanted = {
+        "pyhap/accessory_driver.py": ["VALID_MDNS_REGEX", "LEADING_TRAILING_SPACE_DASH", "DASH_REGEX", "HAP_SERVICE_TYPE",
+                                      "MAX_MDNS_NAME_LENGTH", "DEFAULT_MDNS_NAME"],
+        "pyhap/const.py": ["MAX_CONFIG_VERSION", "DEFAULT_CONFIG_VERSION", "HAP_PROTOCOL_SHORT_VERSION"],
+    }
+    for rel, names in wanted.items():
+        tree = ast.parse((REPO / rel).read_text())
+        for node in tree.body:
+            if isinstance(node, ast.Assign) and len(node.targets) == 1 and isinstance(node.targets[0], ast.Name):
+                n = node.targets[0].id
+                if n not in names:
+                    continue
+                v = node.value
+                if isinstance(v, ast.Call) and getattr(v.func, "attr", "") == "compile" and v.args:
+                    v = v.args[0]
+                try:
+                    out[n] = eval(compile(ast.Expression(v), rel, "eval"), {"__builtins__": {}}, {})  # constants only
+                except Exception:  # noqa: BLE001
+                    out[n] = "<not a constant expression>"
+        for n in names:
+            out.setdefault(n, None)
+    return out
+
+
 # ----------------------------------------------------------------------------- run
 
 
@@ -1004,10 +1067,12 @@ def run(ctx: Ctx):
     post: List[Any] = []  # per line: (stream, case, canonicaliser for the model answer)
 
     # --- names
-    for name in gen_names(ctx):
-        got = impl_names(m, name)
-        oracle_names(ctx, name, got)
-        lines.append({"layer": "advert", "op": "names", "name": _cps(name), "mac": MAC})
+    macs = [MAC, "00:00:00:Ab:cD:EF"] + [gen_mac(rng) for _ in range(6)]
+    for k, name in enumerate(gen_names(ctx)):
+        mac = MAC if k < len(BOUNDARY_NAMES) else macs[k % len(macs)]
+        got = impl_names(m, name, mac)
+        oracle_names(ctx, name, got, mac)
+        lines.append({"layer": "advert", "op": "names", "name": _cps(name), "mac": mac})
         impl.append({k: got.get(k) for k in ("inst", "host", "vn")} if "exc" not in got else {"exc": got["exc"]})
         post.append(("names", {"name": name[:80], "len": len(name)}, lambda a: {k: a.get(k) for k in ("inst", "host", "vn")}))
         changed = "exc" in got or got["vn"] != name
@@ -1144,6 +1209,11 @@ def run(ctx: Ctx):
         if i == 1:
             st.sample({"sys_script": script, "impl_trace": canon_sys_impl(got)})
 
+    # --- constants
+    lines.append({"layer": "advert", "op": "consts"})
+    impl.append(source_constants())
+    post.append(("constants", None, lambda a: a))
+
     # --- model side
     model = run_model_parallel("C18", lines)
     render_a = None
@@ -1203,8 +1273,8 @@ def replay(ctx: Ctx, r):
     kind = r["kind"]
     if kind == "name":
         name = "".join(chr(c) for c in r["name"])
-        got = impl_names(m, name)
-        oracle_names(ctx, name, got)
+        got = impl_names(m, name, r.get("mac", MAC))
+        oracle_names(ctx, name, got, r.get("mac", MAC))
         print("display name", repr(name), "->", got)
     elif kind == "txt":
         got = impl_txt(m, r["case"])
